@@ -70,12 +70,18 @@ def map_pieces_model(drv, case, torrents, metas):
         with quiet():
             md = Metadata(mpath)
             md._map_pieces()
-        idx = {id(f): i for i, f in enumerate(md.files)}
-        names = [f["full"] for f in md.files]
         got = []
+        last = 0
         for piece in md.piece_nodes:
-            got.append(",".join(f"{names.index(n.full) if names.count(n.full) == 1 else _idx(md, n)}:{n.start}:{n.stop}"
-                                for n in piece.paths))
+            toks = []
+            for n in piece.paths:
+                # file indexes never decrease along the stream: search forward from the last
+                i = next((k for k in range(last, len(md.files))
+                          if md.files[k]["full"] == n.full and md.files[k]["length"] == n.length), -1)
+                if i >= 0:
+                    last = i
+                toks.append(f"{i}:{n.start}:{n.stop}")
+            got.append(",".join(toks))
         lengths = [f["length"] for f in md.files]
         npieces = len(md.pieces) // 20
         drv.ask(f"mappieces {md.piece_length} {npieces} {len(lengths)} " +
@@ -114,7 +120,8 @@ def witness_kf1(run):
 
 
 def witness_kf2(run):
-    """KF-C13-2: v1 metafile with BEP 47 padding entries (torrentfile's own --align)."""
+    """Regression witness of the repaired KF-C13-2: v1 metafile with BEP 47 padding entries
+    (torrentfile's own --align) must rebuild completely."""
     t = {"name": "tpad", "files": [("a", "r1.20000"), ("b", "r2.100")], "pl": 16384,
          "version": 1, "single": False, "source": "own", "create_opts": {"align": True}}
     with sandbox("c13p") as box:
@@ -124,8 +131,7 @@ def witness_kf2(run):
         dest = os.path.join(box, "dest")
         os.makedirs(dest)
         count = impl.rebuild([metas[0][0]], [s0], dest)
-        judge(run, {"witness": "KF-C13-2"}, [t], metas, dest, count,
-              flags={"kf_v1_pad_entries": True}, expect_wrong=[("b", "missing")])
+        judge(run, {"witness": "fixed KF-C13-2 (v1 pad entries)"}, [t], metas, dest, count)
     run.case(["witness", "KF-C13-2"], True, classes=["witness"])
 
 
